@@ -48,7 +48,7 @@ Ltac v3_destruct := repeat match goal with v : V3 |- _ => destruct v end; v3_cbv
 Ltac v3_finish := v3_destruct; first [ ring | apply v3_eq; v3_cbv; ring ].
 Ltac v3_nsatz :=
   v3_destruct;
-  first [ ring | timeout 20 nsatz | apply v3_eq; v3_cbv; first [ ring | timeout 20 nsatz ] ].
+  first [ ring | timeout 20 (solve [nsatz]) | apply v3_eq; v3_cbv; first [ ring | timeout 20 (solve [nsatz]) ] ].
 Ltac tv_norms :=
   abs_consts; rewrite ?norm_sq;
   first [ v3_finish | norm_atoms; abs_atoms; v3_nsatz ].
